@@ -23,8 +23,9 @@ def gen(K, unit, maxt, seed, num, depth, workdir, timeout=300):
     for f in ("Timers.tla", "MC_timesim.tla"):
         subprocess.run(["cp", os.path.join(SPEC, f), workdir], check=True)
     open(os.path.join(workdir, "sim.cfg"), "w").write(
-        "SPECIFICATION Spec\nCONSTANTS\n  K = %d\n  UNIT = %d\n  MaxT = %d\n  Dev = {}\n  Record = TRUE\n"
-        "INVARIANTS Emit Inv_C10 Inv_C10_timer Inv_C10_detect Inv_C10_zero\nCHECK_DEADLOCK FALSE\n" % (K, unit, maxt))
+        "SPECIFICATION Spec\nCONSTANTS\n  K = %d\n  Ks = {%s}\n  MaxConn = 3\n  UNIT = %d\n  MaxT = %d\n  Dev = {}\n  Record = TRUE\n"
+        "INVARIANTS Emit Inv_C10 Inv_C10_timer Inv_C10_detect Inv_C10_zero Inv_C10_queue\nACTION_CONSTRAINT SimDrop SimPace\nCHECK_DEADLOCK FALSE\n" % (
+            K, ", ".join(str(x) for x in sorted({0, K, 3000, 12000})), unit, maxt))
     cmd = "timeout %d %s -workers 1 -seed %d -simulate num=%d -depth %d -metadir %s/meta -cleanup -noGenerateSpecTE -config sim.cfg MC_timesim.tla" % (
         timeout, replay.TLC, seed, num, depth, workdir)
     r = subprocess.run(cmd, shell=True, cwd=workdir, capture_output=True, text=True)
@@ -84,6 +85,25 @@ def to_scenario(hist, K, name):
                 steps.append({"e": "poll"})
             susp = False
             expect.append(h)
+        elif a == "stall":
+            # the PINGREQ is due, the transport does not take it, the application drops the poll
+            if not susp:
+                steps.append({"e": "poll"})
+            steps += [{"e": "wpend"}, {"e": "cancel"}]
+            susp = False
+            expect.append({"a": "cancel"})
+        elif a == "drop":
+            if susp:
+                steps.append({"e": "cancel"})
+                expect.append({"a": "cancel"})
+            steps.append({"e": "drop"})
+            susp = False
+        elif a == "conn":
+            ska = h["p"] // 1000
+            steps += [{"e": "conn"}, {"e": "w", "acc": BIG}, {"e": "f", "r": "ok"},
+                      {"e": "b", "bytes": [0x20, 6, 1, 0, 3, 0x13, ska >> 8, ska & 255]},
+                      {"e": "r", "got": BIG}, {"e": "r", "got": BIG}, {"e": "r", "got": BIG}]
+            susp = False
         elif a == "q0":
             if susp:
                 steps.append({"e": "cancel"})
@@ -93,7 +113,7 @@ def to_scenario(hist, K, name):
                       {"e": "w", "acc": BIG}, {"e": "f", "r": "ok"}]
             susp = False
             expect.append(h)
-    cfg = {"rx": 64, "tx": 256, "client_id": replay.b("tm"), "ka": K // 1000, "sei": 0, "name": name}
+    cfg = {"rx": 64, "tx": 256, "client_id": replay.b("tm"), "ka": K // 1000, "sei": 300, "name": name}
     return {"cfg": cfg, "steps": steps, "drain": False}, expect
 
 
